@@ -81,8 +81,8 @@ SPECS = {
   "harnesses": [{"file": "C01_data.cpp", "defines": {"quick": ["-DVH_STEPS=2"], "thorough": ["-DVH_STEPS=3"]},
      "entries": [{"entry": "vh_c01_rw_" + t, "label": "vh_c01_rw_%s.s%d" % (t, sh), "fix": {"shape": sh}, "tiers": (["quick", "thorough"] if t in ("f64", "i32", "u8") else ["thorough"])}
                  for t in ("f64", "f32", "i32", "i64", "u8", "u16", "u64", "i8", "i16", "u32") for sh in range(3)]
-              + [{"entry": "vh_c01_polynomial", "label": "vh_c01_polynomial.r0.n%d" % n, "fix": {"regime": 0, "ncoef": n}} for n in range(3)]
-              + [{"entry": "vh_c01_polynomial", "label": "vh_c01_polynomial.r1.n%d.w%d" % (n, w), "fix": {"regime": 1, "ncoef": n, "symcoef": w}, "tiers": (["quick", "thorough"] if n < 3 and w == 0 else ["thorough"])} for n in range(1, 4) for w in range(n)]
+              + [{"entry": "vh_c01_polynomial", "label": "vh_c01_polynomial.r0.n%d.p%d" % (n, pv), "fix": {"regime": 0, "ncoef": n, "prev": pv}} for n in range(3) for pv in range(3)]
+              + [{"entry": "vh_c01_polynomial", "label": "vh_c01_polynomial.r1.n%d.w%d.p%d" % (n, w, pv), "fix": {"regime": 1, "ncoef": n, "symcoef": w, "prev": pv}, "tiers": (["quick", "thorough"] if n < 3 and w == 0 else ["thorough"])} for n in range(1, 4) for w in range(n) for pv in range(3)]
               + [{"entry": e} for e in ("vh_c01_bool_string", "vh_c01_convert", "vh_c01_applypoly_kernel", "vh_c01_chunks")]}]},
  "C15": {
   "explanation": "Full stack on the HDF5 model (compound datasets, member-by-name conversion, vlen strings): a 3-column frame (Int64, String, Double) is driven through bounded histories of rows(n) / writeRow / writeCell(s) / writeColumn(offset,count) with symbolic payloads, and after every step and after reopen all cells are read back through readRow, readCell (by index and name) and readColumn (resize, offset) and compared with a reference table; a second entry covers Bool/Int32/UInt32/UInt64 cells and schema mismatch.",
